@@ -123,7 +123,8 @@ def class_zoo(rng, S):
            ['lin', fc.rvec(rng, n), 0.5],
            ['quadscale', 2.0, fc.rvec(rng, n), 1.0], ['quadmul', pos, None, -1.0],
            ['quadmul', pos, fc.rvec(rng, n), 0.0],
-           ['infconv', ['l1'], ['l2sq']], ['conj', ['infconv', ['indlinf'], ['l2sq']]]]
+           ['infconv', ['l1'], ['l2sq']], ['infconv', ['l2sq'], ['const', 1.0]],
+           ['conj', ['infconv', ['indlinf'], ['l2sq']]]]
     if not S.is_pspace:
         out += [['kl', None], ['kl', pos], ['klcc', pos], ['klce', None], ['klce', pos],
                 ['klcecc', pos]]
@@ -231,6 +232,15 @@ def check_expr(ctx, r, S, stream, lines, pend, n_pts=3, oracle_only=False):
             else:
                 ctx.violation('conj-value-raises ' + key0, 'f.convex_conj(y) raised ' + st, desc)
                 continue
+        # documented rule for the class without `_call`: (f [] g)* = f* + g*
+        if r[0] == 'infconv' and gy is not None:
+            st, dv = safe_call(lambda: float(fc.build(r[1], S).convex_conj(y)) +
+                               float(fc.build(r[2], S).convex_conj(y)))
+            ctx.case(('infconv', S.kind, classes) if st == 'ok' and dv else None)
+            if st == 'ok' and not close(gy, dv, 1.0, 1e-9, 1e-9):
+                ctx.violation('infconv-conj-value ' + key0,
+                              'InfimalConvolution(f, g).convex_conj(y) = {!r} but f*(y) + g*(y) = {!r}'
+                              .format(gy, dv), desc)
         # (a) Fenchel-Young inequality
         if fx is not None and gy is not None:
             ctx.case(('fy', S.kind, classes) if math.isfinite(fx + gy) and (fx or gy) else None,
@@ -337,7 +347,7 @@ def run(ctx, deep=False):
     rng = ctx.rng
     quick = ctx.quick and not deep
     lines, pend = [], []
-    n_expr = 16 if quick else 70
+    n_expr = 70 if quick else 400
     for S in fc.all_spaces():
         for r in class_zoo(rng, S):
             check_expr(ctx, r, S, 'general', lines, pend, n_pts=2 if quick else 4)
@@ -375,6 +385,11 @@ def replay(ctx, case):
         return 'convex_conj raised ' + st
     x, y = S.elem(case['x']), S.elem(case['y'])
     msgs = []
+    if r[0] == 'infconv':
+        gy = float(g(y))
+        dv = float(fc.build(r[1], S).convex_conj(y)) + float(fc.build(r[2], S).convex_conj(y))
+        return None if close(gy, dv, 1.0, 1e-9, 1e-9) else \
+            'InfimalConvolution conj value {!r} != f*(y)+g*(y) = {!r}'.format(gy, dv)
     if 'sigma' in case:
         s = float(case['sigma'])
         st, resid = safe_call(lambda: float((f.proximal(s)(x) + s * g.proximal(1.0 / s)(x / s) - x).norm()))
